@@ -221,6 +221,9 @@ def correspondence(ctx):
     from . import c07_rules2
 
     c07_rules2.corr_rules2(ctx, out)
+    from . import c07_gen
+
+    c07_gen.corr_gen(ctx, out)
     return out
 
 
